@@ -10,6 +10,15 @@ use crate::engine::core::{end_concolic, run_concolic, Sym};
 use crate::engine::report::Report;
 use crate::spline::{Bc, End, Row, SplineProblem};
 
+/// run natively, turning a panic of the crate into an error value (a seeded change may make the native run panic:
+/// that must not crash the check - the concolic run then has to panic as well)
+fn guarded<T>(f: impl FnOnce() -> Result<T, String>) -> Result<T, String> {
+    crate::engine::core::silence_panics();
+    match std::panic::catch_unwind(std::panic::AssertUnwindSafe(f)) {
+        Ok(r) => r,
+        Err(_) => Err("panic".into()),
+    }
+}
 fn same_bits(a: f64, b: f64) -> bool {
     a.to_bits() == b.to_bits() || (a.is_nan() && b.is_nan())
 }
@@ -86,7 +95,7 @@ pub fn spline_cases(seed: u64) -> Vec<SplineCase> {
 
 pub fn validate_spline(seed: u64, rep: &mut Report) {
     for c in spline_cases(seed) {
-        let native = SplineProblem { x: c.x.clone(), data: ArrayD::from_shape_vec(IxDyn(&c.shape), c.data.clone()).unwrap(), bc: c.bc.clone(), vl: c.vl.clone(), vr: c.vr.clone(), extrapolate: c.extrapolate }.eval(&c.qs);
+        let native = guarded(|| SplineProblem { x: c.x.clone(), data: ArrayD::from_shape_vec(IxDyn(&c.shape), c.data.clone()).unwrap(), bc: c.bc.clone(), vl: c.vl.clone(), vr: c.vr.clone(), extrapolate: c.extrapolate }.eval(&c.qs));
         let mut vals: Vec<(String, f64)> = vec![];
         for (i, x) in c.x.iter().enumerate() {
             vals.push((format!("x{i}"), *x));
@@ -118,6 +127,7 @@ pub fn validate_spline(seed: u64, rep: &mut Report) {
         let ok = match (&native, &conc) {
             (Ok(a), Ok(Ok(b))) => a.len() == b.len() && a.iter().zip(b).all(|(r, s)| r.len() == s.len() && r.iter().zip(s).all(|(x, y)| same_bits(*x, *y))),
             (Err(a), Ok(Err(b))) => a.split('(').next() == b.split('(').next(),
+            (Err(a), Err(_)) => a == "panic",
             _ => false,
         };
         if !ok {
@@ -154,6 +164,7 @@ fn cmp_rows(name: &str, native: Result<Vec<f64>, String>, conc: Result<Result<Ve
     let ok = match (&native, &conc) {
         (Ok(a), Ok(Ok(b))) => a.len() == b.len() && a.iter().zip(b).all(|(x, y)| same_bits(*x, *y)),
         (Err(a), Ok(Err(b))) => a.split('(').next() == b.split('(').next(),
+        (Err(a), Err(_)) => a == "panic",
         _ => false,
     };
     if !ok {
@@ -185,7 +196,7 @@ pub fn validate_linear(seed: u64, rep: &mut Report) {
     }
     for (name, x, shape, data, ex, qs) in cases {
         let qs: Vec<f64> = if x.is_none() { qs.iter().map(|q| q.abs() % (shape[0] as f64 - 1.0)).collect() } else if ex { qs } else { qs.into_iter().filter(|q| *q >= x.as_ref().unwrap()[0] && *q <= *x.as_ref().unwrap().last().unwrap()).collect() };
-        let native = (|| -> Result<Vec<f64>, String> {
+        let native = guarded(|| -> Result<Vec<f64>, String> {
             let it = build_1d(x.as_ref().map(|x| arr1(x)), arrd(&shape, &data), &Strat1::Linear { extrapolate: ex }, false).map_err(|e| format!("{e:?}"))?;
             let mut out = vec![];
             for q in &qs {
@@ -193,7 +204,7 @@ pub fn validate_linear(seed: u64, rep: &mut Report) {
             }
             out.extend(it.interp_array(arr1(&qs).into_dyn().view(), QRank::Static).map_err(|e| format!("{e:?}"))?.iter().copied());
             Ok(out)
-        })();
+        });
         let xv = x.clone().unwrap_or_default();
         let vals = concolic_vals(&[("x", &xv), ("d", &data), ("q", &qs)]);
         let conc = run_concolic(&vals, || -> Result<Vec<f64>, String> {
@@ -240,7 +251,7 @@ pub fn validate_bilinear(seed: u64, rep: &mut Report) {
         let idx = |n: usize| (0..n).map(|i| i as f64).collect::<Vec<f64>>();
         let (qx, qy) = (if use_x { qx } else { qx.iter().map(|q| q.abs() % (nx as f64 - 1.0)).collect() }, if use_y { qy } else { qy.iter().map(|q| q.abs() % (ny as f64 - 1.0)).collect() });
         let _ = idx;
-        let native = (|| -> Result<Vec<f64>, String> {
+        let native = guarded(|| -> Result<Vec<f64>, String> {
             let it = build_2d(if use_x { Some(arr1(&x)) } else { None::<ndarray::Array1<f64>> }, if use_y { Some(arr1(&y)) } else { None::<ndarray::Array1<f64>> }, arrd(&shape, &data), ex, false).map_err(|e| format!("{e:?}"))?;
             let mut out = vec![];
             for (a, b) in qx.iter().zip(&qy) {
@@ -248,7 +259,7 @@ pub fn validate_bilinear(seed: u64, rep: &mut Report) {
             }
             out.extend(it.interp_array(arr1(&qx).into_dyn().view(), arr1(&qy).into_dyn().view(), QRank::Static).map_err(|e| format!("{e:?}"))?.iter().copied());
             Ok(out)
-        })();
+        });
         let vals = concolic_vals(&[("x", &x), ("y", &y), ("d", &data), ("qx", &qx), ("qy", &qy)]);
         let conc = run_concolic(&vals, || -> Result<Vec<f64>, String> {
             let it = build_2d(if use_x { Some(arr1(&vars("x", nx))) } else { None::<ndarray::Array1<Sym>> }, if use_y { Some(arr1(&vars("y", ny))) } else { None::<ndarray::Array1<Sym>> }, arrd(&shape, &vars("d", data.len())), ex, false).map_err(|e| format!("{e:?}"))?;
